@@ -337,7 +337,7 @@ func (t *Tree) AddBlock(parent int, blk types.Block) *Node { return t.attach(par
 
 func (t *Tree) attach(parent int, blk types.Block) *Node {
 	p := t.Node(parent)
-	n := &Node{ID: len(t.Nodes) + 1, Parent: parent, Height: p.Height + 1, Block: blk}
+	n := &Node{ID: len(t.Nodes) + 1, Parent: parent, Height: p.Height + 1, Block: blk, Alias: len(t.Nodes) + 1}
 	pstate := p.State()
 	n.Cls = classify(p.L, pstate, blk)
 	var ats time.Time
